@@ -41,8 +41,16 @@ def default_equal(a, b):
     return True
 
 
+def _scribble(r):
+    """the caller edits, in place, every writeable numeric array of a result it was handed"""
+    for v in (r if isinstance(r, (list, tuple)) else [r]):
+        if isinstance(v, np.ndarray) and v.flags.writeable and v.size and v.dtype.kind in "iuf":
+            v[...] = v // 2 if v.dtype.kind in "iu" else v * 0.5 + 1.0
+
+
 def object_world(ctx, name, kinds, new, ops, do, modules, depth, check=None, equal=default_equal,
-                 state=None, max_objects=3, nodedup_depth=3, enabled=None, bounds=None, lit=None, must_raise=None):
+                 state=None, max_objects=3, nodedup_depth=3, enabled=None, bounds=None, lit=None, must_raise=None,
+                 result_edits=False):
     """register and run the part.  ``new(kind)`` builds an object, ``do(obj, kind, op)`` applies
     the plain-literal ``op`` and returns a picklable result, ``modules()`` returns the list of
     modules whose globals belong to the state (called inside the child), ``state(obj)`` what to
@@ -62,16 +70,27 @@ def object_world(ctx, name, kinds, new, ops, do, modules, depth, check=None, equ
     def child(hist):
         objs = []
         last = None
+        lastres = None
         for ev in hist:
             if ev[0] == "new":
                 objs.append((ev[1], new(ev[1])))
+                last = ("new",)
+            elif ev[0] == "edit-last-result":
+                # what a getter or a conversion handed out belongs to the caller: editing it in place must not
+                # reach the object (a getter that returns its internal array instead of a copy)
+                if lastres is not None:
+                    _scribble(lastres)
                 last = ("new",)
             else:
                 op, k = ev[:-1], ev[-1]
                 kind, o = objs[k]
                 try:
-                    last = ("ok", kind, op, do(o, kind, op))
+                    lastres = do(o, kind, op)
+                    # the result is snapshotted for the comparison: the caller may scribble over the original later
+                    last = ("ok", kind, op, [np.array(v, copy=True) if isinstance(v, np.ndarray) else v
+                                             for v in (lastres if isinstance(lastres, (list, tuple)) else [lastres])])
                 except Exception as e:
+                    lastres = None
                     last = ("exc", kind, op, "%s: %s" % (type(e).__name__, e))
         key = fingerprint([(k, state(o)) for k, o in objs], module_state(*modules()))
         return last, key, [k for k, _ in objs]
@@ -124,6 +143,8 @@ def object_world(ctx, name, kinds, new, ops, do, modules, depth, check=None, equ
         menu = []
         if len(live) < max_objects:
             menu += [("new", k) for k in kinds]
+        if result_edits and hist and hist[-1][0] not in ("new", "edit-last-result"):
+            menu.append(("edit-last-result",))
         for i, kind in enumerate(live):
             for op in ops:
                 if enabled is None or enabled(kind, op):
